@@ -318,6 +318,13 @@ func RunT(t T, p Params) {
 	}
 
 	refCount := int32(len(files))
+	if refCount == 0 && !(p.TestWork || *testWork) {
+		// No subtest will ever remove the parent directory or cancel the context.
+		os.Remove(testTempDir)
+		if cancel != nil {
+			cancel()
+		}
+	}
 	names := make(map[string]bool)
 	for _, file := range files {
 		name := filepath.Base(file)
